@@ -24,7 +24,12 @@ CFG = {
                   "compares float64-rounded scores, Get compares integers): the theorems state exactly that window instead of hiding it. "
                   "(4) A Load entry whose deadline falls inside the Load's own clock bracket, over a key that already has an abstract entry, makes "
                   "that key 'Wild' in the interval checker (every observation on it is accepted until the next definite store/hit/export): "
-                  "sound for no-false-alarm, blind for that key in that rare window; decided_b rejects such traces as undecided.",
+                  "sound for no-false-alarm, blind for that key in that rare window; decided_b rejects such traces as undecided. "
+                  "(5) Sampled configurations: default expiry per trace from {40ms, 120ms, 0, 0 without the option, NoExpire, -5ms, -1h}, capture "
+                  "callback no-op / nil / recording, every TTL kind (NoExpire, DefaultExpire via Set(k,v,0) and via SetDefault, 40ms/120ms/1h/1y, "
+                  "negatives) with Set/SetDefault/SetIfAbsent/Replace in every profile; NOT varied: a custom SetSentinelFn (VerifSweep would "
+                  "call it instead of deleteExpire) and a running ticker inside trace runs (background sweeps are not trace steps; the ticker "
+                  "is sampled by separate runs); the API has no way to change the default expiry after New.",
     "harness": "c12",
     "theorems": [("C12.Props", [
         "C12_refines", "C12_index", "C12_get_live_generic", "C12_get_live", "C12_untimed_survive", "C12_sweep_exact",
